@@ -6,11 +6,11 @@ VERIF = os.path.dirname(os.path.dirname(os.path.abspath(__file__)))
 CHECKS = {
  "C01": dict(level="model_checking", design="DESIGN.md §4 C01, §3.3, §3.4",
    technique="bounded exhaustive enumeration of (rule set, program) pairs against an independent reference assembler",
-   text="All rule sets of 1..2 (thorough: 3) templates from a 27-template pool x every line the pool can produce (every range boundary, labels before/after, constants, undefined names, malformed lines), in one rule block and one block per rule, plus all item sequences up to a length over layout/label/data/instruction items (and a two-bank variant) are assembled by the real assembler and compared — success/failure, bits, every symbol value — with a reference assembler (character-level matcher with its own expression parser, layout, scoping) written from the documented rules.",
-   note="Trusts the reference models refasm/refparse/refx (bound to the real code by agreeing on >300k programs; any disagreement is triaged). Programs outside the reference's defined domain (value-dependent sizes, blanks splitting adjacent literal characters, strings/blocks in arguments) get no verdict and are counted. Iteration budget 30."),
+   text="All rule sets of 1..2 (thorough: 3) templates from a pool of rule templates (prefix-sharing mnemonics, literal/typed/untyped/sub-rule operands, digit-letter mnemonics, two sub-rule operands, …) x every line the pool can produce (every range boundary, labels before/after, constants, undefined names, malformed lines), in one rule block and one block per rule, plus all item sequences up to a length over layout/label/data/instruction items (two-bank and labelalign variants, label-dependent #addr/#res/#align whose unique layout the reference solves by fixed-point iteration + dependency analysis, sub-rule literals shadowed by symbols) are assembled by the real assembler and compared — success/failure, bits, every symbol value — with a reference assembler (character-level matcher with its own expression parser, layout, scoping) written from the documented rules.",
+   note="Trusts the reference models refasm/refparse/refx (bound to the maintainers' own expectations by the corpus conformance run inside this check (0 disagreements) and to the real code by agreeing on every enumerated program; any disagreement is triaged). Programs outside the reference's defined domain (value-dependent sizes, blanks splitting adjacent literal characters, strings/blocks in arguments) get no verdict and are counted. Iteration budget 30."),
  "C02": dict(level="model_checking", design="DESIGN.md §4 C02, §3.5",
    technique="bounded exhaustive enumeration of value-dependent programs x budgets x switches; certificate re-derivation of every claimed fixed point by the reference model",
-   text="Seven rule families with value-dependent encodings x all item sequences up to a length x iteration budgets x the four optimisation-switch combinations, plus forward chains of length 0..12 (needing up to 14 passes) with and without an oscillator x budgets 1..30: every claimed success is certified by recomputing, from the assembler's own final symbol values and instruction sizes, each instruction's surviving matches, the unique smallest encoding, every data element and every label address; every failure must be clean. Nothing is predicted about which fixed point is found.",
+   text="Sixteen rule families with value-dependent encodings (assert cascades, typed widths, pc-relative also in a bank at a negative address, candidates of non-static width, constants whose size flips with a label, label-dependent layout directives, data in range only after shrinking, sub-rule operands, …) plus directed families (late-settling booleans, constants/labels as scope parents) x all item sequences up to a length x iteration budgets x the four optimisation-switch combinations, plus forward chains of length 0..12 (needing up to 14 passes) with and without an oscillator x budgets 1..30: every claimed success is certified by recomputing, from the assembler's own final symbol values and instruction sizes, each instruction's surviving matches, the unique smallest encoding, every data element and every label address; every failure must be clean. Nothing is predicted about which fixed point is found.",
    note="Certificate uses the reference matcher/evaluator/layout (refasm) on the public result only (spans, bits, symbols output). States = distinct certified final states, transitions = passes executed (iterations_taken). Quick: sequences <=3, budgets {1,2,3,4,10}; thorough: <=4/5, budgets 1..30."),
  "C06": dict(level="model_checking", design="DESIGN.md §4 C06, §3.4",
    technique="bounded exhaustive enumeration of bank configurations x item sequences against a reference layout model plus invariants on the real spans",
@@ -22,11 +22,11 @@ CHECKS = {
    note="Blanks are only added; a blank between two adjacent pattern literals is a recorded known finding with an input-side classification (shared root cause with C08)."),
  "C08": dict(level="exploration", design="DESIGN.md §4 C08",
    technique="exhaustive differential execution of every generated program and the whole corpus under the four switch combinations x budgets",
-   text="Every program of the C01 generators (rule sets of 1..2 templates x all pool lines, one block and one block per rule; item sequences), of the nine C02 value-dependent families, the skeleton chains and every file of the repository's corpus and examples is assembled under the four combinations of the two --debug-no-optimize-* switches at budgets {1,3,10,30} (chains 1..30); success/failure, bits and symbol values must be identical.",
+   text="Every program of the C01 generators (rule sets of 1..2 templates x all pool lines, one block and one block per rule; item sequences), of all C02 value-dependent and directed families, command-line defines, the skeleton chains and every file of the repository's corpus and examples is assembled under the four combinations of the two --debug-no-optimize-* switches at budgets {1,3,10,30} (chains 1..30); success/failure, bits and symbol values must be identical.",
    note="Message texts are not compared. Two genuine divergences are recorded as known findings (blank between adjacent pattern literals; unoptimised resolver needing a larger budget), each recognised by an input-side classification, every other difference is a violation."),
  "C09": dict(level="model_checking", design="DESIGN.md §4 C09",
    technique="exhaustive enumeration of programs x budget rows on the real resolver loop; monotonicity relation between runs",
-   text="Every program of the nine value-dependent families, the skeleton grid (chains needing up to 14 passes, with and without an oscillator), asm-block macros with local labels and #assert programs is assembled under a row of budgets (quick {1,2,3,4,5,10,11,30}, thorough 1..31): a success at N must recur with identical bits and symbols at every larger budget, the reported number of passes never exceeds the budget, failures are clean.",
+   text="Every program of the C02 value-dependent and directed families, the skeleton grid (chains needing up to 14 passes, with and without an oscillator), asm-block macros with local labels and #assert programs is assembled under a row of budgets (quick {1,2,3,4,5,10,11,30}, thorough 1..31): a success at N must recur with identical bits and symbols at every larger budget, the reported number of passes never exceeds the budget, failures are clean.",
    note="The implementation is compared with itself across budgets; states = distinct (program, outcome row), transitions = passes executed. Two defects found by this check were repaired (fix: 7b38a8a, bde47c9)."),
  "C14": dict(level="model_checking", design="DESIGN.md §4 C14, §3.6",
    technique="exhaustive enumeration of path strings, include graphs x #once subsets and inclusion-function ranges against reference models; real binary under strace for confinement (thorough)",
@@ -42,7 +42,7 @@ CHECKS = {
    note="states = distinct worlds (visible items + known constants) reached by the model, transitions = splices. Cases the statement does not determine (a name declared twice among visible items, lazily decidable conditions, local scoping across arm boundaries) carry no verdict. A defect found was repaired (fix: 034af25)."),
  "C10": dict(level="exploration", design="DESIGN.md §4 C10",
    technique="exhaustive enumeration of job histories and thread placements in one process against fresh-process baselines; repetition over fresh processes for the hash-seed dimension (sampled, labelled)",
-   text="15 jobs built to collide on every conceivable cache key (same file names, mnemonics, symbol names, format strings; different rule bodies, constants, banks, includes, defines) and to have several equally-ranked diagnostics. All histories of <=3 (thorough <=4) jobs in one process, every job on main/fresh threads and every ordered pair on two concurrent threads must reproduce, byte for byte, the record (bits, 23 formatted outputs, written files, printed diagnostics) of the job alone in a fresh process; fresh-process repetition of the real binary samples the per-process hash seed.",
+   text="About twenty jobs built to collide on every conceivable cache key (same file names, mnemonics, symbol names, format strings; different rule bodies, constants, banks, includes, defines) and to have several equally-ranked diagnostics. All histories of <=3 (thorough <=4) jobs in one process, every job on main/fresh threads and every ordered pair on two concurrent threads must reproduce, byte for byte, the record (bits, 23 formatted outputs, written files, printed diagnostics) of the job alone in a fresh process; fresh-process repetition of the real binary samples the per-process hash seed.",
    note="Histories and placements are exhaustive; the hash-seed and OS-schedule dimensions cannot be enumerated (RandomState cannot be seeded additively, the crate has no synchronisation points for a controlled scheduler) and are sampled and labelled so in the evidence. loom/shuttle do not apply (zero scheduling points)."),
  "C11": dict(level="exploration", design="DESIGN.md §4 C11",
    technique="exhaustive enumeration of output lengths/shapes; independent decoder per format compared with the assembled bits",
@@ -54,7 +54,7 @@ CHECKS = {
    note="Conventions without a golden file (column radix, addrspan origin, digit alphabets of bases 32..128) are calibrated once from a one-item program, so a consistent change of convention is not an alarm. Order among rows sharing an output position is not compared. Two defects found were repaired (fix: c8d8928, 5976eaf)."),
  "C13": dict(level="exploration", design="DESIGN.md §4 C13",
    technique="exhaustive enumeration of (valid program, fault kind, fault position, file layout, multi-byte decoration); location oracle computed independently from byte ranges",
-   text="Every valid base program up to a length x every fault kind x every fault line x one-file/included-file layouts x 14 decorations with 2/3/4-byte characters before, on and after the fault line: every located message (recursively) must name an input file and a byte range on character boundaries inside it; every printed '--> file:line:col' must equal the 1-based line and character column recomputed from the byte range; the first error must lie on the faulty line of the right file. Uses hook H1 (Report::verif_messages).",
+   text="Every valid base program up to a length x every fault kind x every fault line x one-file/included-file layouts x 17 decorations (2/3/4-byte characters before, on and after the fault line, TABs, CR LF line endings): every located message (recursively) must name an input file and a byte range on character boundaries inside it; every printed '--> file:line:col' must equal the 1-based line and character column recomputed from the byte range; the first error must lie on the faulty line of the right file. Uses hook H1 (Report::verif_messages).",
    note="The extent of ranges and nested notes are unconstrained; '#res' followed by content on the next line has no first-error verdict (the operand may legally continue there). The byte/char index defect found was repaired (fix: c8d8928)."),
  "C03": dict(level="fault_enumeration", design="DESIGN.md §4 C03, §1 (isolated runs)",
    technique="exhaustive single-edit (thorough: double-edit) token damage of the corpus, complete option grid, every single I/O fault point; real-binary binding of every outcome class",
@@ -80,8 +80,8 @@ CHECKS = {
 
  "C19": dict(level="exploration", design="DESIGN.md §4 C19",
    technique="complete grid site x magnitude executed on the real binary under ulimit, one process per case",
-   text="82 sites (nesting of every bracket/operator/directive form, operator chains, cycles of length 1..4 through functions/asm rules/sub-rules/includes/constants, every numeric position: shifts, slices, widths, #res/#align/#addr, every #bankdef field, incbin ranges, literal/string/element counts) x a magnitude ladder (depths 10^k and 2*10^k, values around 2^7..2^65, 2^1000, 2^(2^20)) run on the real binary with 2 GiB address space, 8 MiB stack and a CPU budget: each run must end with exit 0 or exit 1 plus an error line — never a signal, exit 101, timeout or memory-cap death, and no success that contradicts unbounded-integer meaning.",
-   note="37 (site, kind) pairs are recorded known findings (stack overflows on deep nesting/chains, allocation aborts, multi-second bit loops); a new site or a new kind at a listed site is a violation. The overflow panics found were repaired (fix: 878505b, 99b6062, 538f4e1). Quick skips larger magnitudes of a site after its first timeout (reported, exhaustive=false for those)."),
+   text="About 90 sites (nesting of every bracket/operator/directive form, operator chains, cycles of length 1..4 through functions/asm rules/sub-rules/includes/constants, every numeric position: shifts, slices, widths, #res/#align/#addr, every #bankdef field, incbin ranges, literal/string/element counts) x a magnitude ladder (depths 10^k and 2*10^k, values around 2^7..2^65, 2^1000, 2^(2^20)) run on the real binary with 2 GiB address space, 8 MiB stack and a CPU budget: each run must end with exit 0 or exit 1 plus an error line — never a signal, exit 101, timeout or memory-cap death, and no success that contradicts unbounded-integer meaning.",
+   note="39 (site, kind) pairs are recorded known findings (stack overflows on deep nesting/chains; positions without a magnitude limit, where the CPU budget or the 2 GiB cap runs out), each listing the ladder magnitudes that fail on the recorded tree; a new site, a new kind or another magnitude at a listed site is a violation. The overflow panics found were repaired (fix: 878505b, 99b6062, 538f4e1). After a time-out the quick tier skips only the magnitudes its known finding lists (reported, exhaustive=false for those)."),
 }
 
 NOT_YET = {
